@@ -428,8 +428,10 @@ func c08d(c *Ctx) {
 				if c2, ok := f.IsCallResult(argByName(info, s.Call, "key"), -1, Callee{pkgCtlog, "", "legacyStagingPath"}); ok && c2 != nil {
 					class = "existence test only (legacy staging path)"
 				}
-			case top == "ctlog.(*Log).uploadIssuer":
-				class = "compared with bytes.Equal before being trusted (C04.c)"
+			case shape == "sprintf:issuer/%x":
+				if _, v, _ := issuerVerifier(c.P); v != nil && f.Top() == v {
+					class = "compared with bytes.Equal before being trusted (C04.c)"
+				}
 			case top == "ctlog.fetchAndDecompress":
 				class = "callers: staging bundle (re-uploaded, then read back through the verifying reader) and right-edge data tile (C08.c)"
 			}
